@@ -2,13 +2,13 @@
 # tools/keep_seed.sh <PROP> <seed-id> "<needs>"  -- confirms a sub-agent's change in a fresh scratch worktree and keeps it under seeded/<seed-id>/
 set -u
 P=$1; ID=$2; NEEDS=${3:-}
-SRC=/tmp/seed-$P-out
-[ -f $SRC/patch.diff ] || git -C /tmp/seed-$P diff > $SRC/patch.diff
+PFX=${SEED_PREFIX:-seed}; SRC=/tmp/$PFX-$P-out
+[ -f $SRC/patch.diff ] || git -C /tmp/$PFX-$P diff > $SRC/patch.diff
 D=/verif/seeded/$ID; mkdir -p $D
 cp $SRC/patch.diff $D/patch.diff; cp $SRC/demo.py $D/demo.py; cp $SRC/notes.md $D/notes.md 2>/dev/null
 WT=$(mktemp -d /tmp/verif-keep-XXXX)/wt
 git -C /repo worktree add -q --detach $WT HEAD
-sed -i "s#/tmp/seed-$P-out#$D#g; s#/tmp/seed-$P#$WT#g" $D/demo.py 2>/dev/null
+sed -i "s#/tmp/$PFX-$P-out#$D#g; s#/tmp/$PFX-$P#$WT#g" $D/demo.py 2>/dev/null
 ( cd $WT && PYTHONPATH=$WT/src timeout 300 /venv/bin/python $D/demo.py >/tmp/keep-clean.log 2>&1 ); RC_CLEAN=$?
 git -C $WT apply $D/patch.diff; RC_APPLY=$?
 ( cd $WT && PYTHONPATH=$WT/src timeout 300 /venv/bin/python $D/demo.py >/tmp/keep-bad.log 2>&1 ); RC_BAD=$?
